@@ -48,6 +48,9 @@ pub enum FPc {
     InitSend(u8),
     Spawn(u8),
     RecvRefill,
+    /// lock / unlock of the "a frame failed" mark after a buffer id was taken; the mark is read at the lock
+    LockMark(u8),
+    UnlockMark(u8, bool),
     Lock(u8),
     /// read + fill (emits the send on the process queue, if the source fills)
     Read(u8),
@@ -66,6 +69,9 @@ pub enum WPc {
     RecvEncode,
     Lock(u8),
     Unlock(u8),
+    /// a worker whose frame failed sets the mark before it hands the buffer back
+    LockMark(u8),
+    UnlockMark(u8),
     SendRefill(u8),
     LockSink,
     UnlockSink,
@@ -100,6 +106,9 @@ pub struct St {
     pub buf_content: Vec<Option<(u8, bool)>>,
     pub sink_lock: Option<u8>,
     pub ctx_lock: Option<u8>,
+    pub mark_lock: Option<u8>,
+    /// "a frame failed to encode"
+    pub mark: bool,
     /// (frame number, block index it was encoded from, ok) in insertion order
     pub sink: Vec<(u8, u8, bool)>,
     /// per worker: the frame it holds between encode and push
@@ -164,11 +173,15 @@ impl ParModel {
     pub fn hasher_tid(&self) -> usize {
         self.w + 1
     }
-    pub fn sink_mutex(&self) -> usize {
+    /// mutexes are numbered in creation order: the buffers, the mark of `ParFrameBuf`, the sink, the context
+    pub fn mark_mutex(&self) -> usize {
         self.r()
     }
-    pub fn ctx_mutex(&self) -> usize {
+    pub fn sink_mutex(&self) -> usize {
         self.r() + 1
+    }
+    pub fn ctx_mutex(&self) -> usize {
+        self.r() + 2
     }
     pub fn nthreads(&self) -> usize {
         self.w + 2
@@ -184,6 +197,8 @@ impl ParModel {
             buf_content: vec![None; self.r()],
             sink_lock: None,
             ctx_lock: None,
+            mark_lock: None,
+            mark: false,
             sink: vec![],
             holding: vec![None; self.w],
             hashed: vec![],
@@ -249,8 +264,26 @@ impl ParModel {
                         return StepResult::Disabled;
                     }
                     let b = n.refill.remove(0);
-                    n.feeder = FPc::Lock(b);
+                    n.feeder = FPc::LockMark(b);
                     StepResult::Moved(n, ev("recv", 0, b as i64))
+                }
+                FPc::LockMark(b) => {
+                    if s.mark_lock.is_some() {
+                        return StepResult::Disabled;
+                    }
+                    n.mark_lock = Some(0);
+                    n.feeder = FPc::UnlockMark(b, s.mark);
+                    StepResult::Moved(n, ev("lock", self.mark_mutex(), 0))
+                }
+                FPc::UnlockMark(b, failed) => {
+                    n.mark_lock = None;
+                    n.feeder = if failed {
+                        // a frame failed: stop feeding (the buffer id that was taken is dropped)
+                        if self.w > 0 { FPc::SendStop(0) } else { FPc::CtxStop }
+                    } else {
+                        FPc::Lock(b)
+                    };
+                    StepResult::Moved(n, ev("unlock", self.mark_mutex(), 0))
                 }
                 FPc::Lock(b) => {
                     if s.buf_lock[b as usize].is_some() {
@@ -399,8 +432,23 @@ impl ParModel {
                 }
                 WPc::Unlock(b) => {
                     n.buf_lock[b as usize] = None;
-                    n.workers[wi] = WPc::SendRefill(b);
+                    let failed = matches!(s.holding[wi], Some((_, _, false)));
+                    n.workers[wi] = if failed { WPc::LockMark(b) } else { WPc::SendRefill(b) };
                     StepResult::Moved(n, ev("unlock", b as usize, 0))
+                }
+                WPc::LockMark(b) => {
+                    if s.mark_lock.is_some() {
+                        return StepResult::Disabled;
+                    }
+                    n.mark_lock = Some(t as u8);
+                    n.mark = true;
+                    n.workers[wi] = WPc::UnlockMark(b);
+                    StepResult::Moved(n, ev("lock", self.mark_mutex(), 0))
+                }
+                WPc::UnlockMark(b) => {
+                    n.mark_lock = None;
+                    n.workers[wi] = WPc::SendRefill(b);
+                    StepResult::Moved(n, ev("unlock", self.mark_mutex(), 0))
                 }
                 WPc::SendRefill(b) => {
                     if s.refill.len() >= r + 1 {
